@@ -53,6 +53,16 @@ Proof.
   intros Hl rest. eapply decodes_bind; [apply D; exact Hl|apply decodes_ret].
 Qed.
 
+(* a guard "at least n bytes remain" passes when the encoding that follows has at least n bytes *)
+Lemma RTb_guard_remaining : forall A m k e (d : dec A) x n, RTb m k e d x -> n <= Z.of_nat m ->
+  RTb m k e (bind remaining (fun r => if r <? n then fail EEOF else d)) x.
+Proof.
+  intros A m k e d x n [bs [E [L D]]] Hn. exists bs. split; [exact E|]. split; [exact L|].
+  intros Hl rest. eapply decodes_bind; [apply decodes_remaining|].
+  replace (blen (bs ++ rest) <? n) with false; [apply D; exact Hl|].
+  symmetry. apply Z.ltb_ge. unfold blen. rewrite app_length. lia.
+Qed.
+
 (* a field governed by a mask bit *)
 Lemma RTb_opt : forall A m k (b : bool) e (d : dec A) x dflt,
   (b = true -> RTb m k e d x) ->
